@@ -339,6 +339,9 @@ func main() {
 	hx.Main(func(h *hx.H) {
 		initBlockLits()
 		th := h.Thorough()
+		if th {
+			fromBytesLimit = 4096
+		}
 		scale := 1
 		if th {
 			scale = 20
